@@ -1,7 +1,7 @@
 (* C02 — the JSON text parser accepts exactly the documented language, with standard meaning. *)
 From Coq Require Import List NArith ZArith Bool.
 Import ListNotations.
-From JB Require Import Constants Bytes Num Value JsonText TextProofs.
+From JB Require Import Constants Bytes Utf8 Num Value JsonText TextProofs Render SerdeProofs TextRoundtrip.
 Open Scope N_scope.
 
 (* every byte string is answered with a value or an error, never a panic: the first pass over a string literal
@@ -22,3 +22,28 @@ Example C02_example_document :
   = Ok (VArr [VNum (NUInt 1); VNum (NFloat 13840687554816376832); VObj [([97; 65], VNull)]]).
 Proof. vm_compute. reflexivity. Qed.
 Print Assumptions C02_example_document.
+
+(* ---- accepted with the standard meaning: every document the library itself prints, for every well-formed value
+   without floats (strings with every escape the printer emits: the seven short escapes and \u00XX for the other
+   control characters; integers of both signs up to the 64-bit limits; the three literals; arrays and objects of any
+   size and nesting).  pf is the float printer, irrelevant here.  The value comes back with its non-negative
+   integers unsigned, which is how the text parser types them. *)
+Theorem C02_printed_documents_parse_to_their_meaning :
+  forall pf v, wf_shape v = true -> no_float v = true -> parse_value (to_string_t pf v) = Ok (unsign v).
+Proof. exact parse_render_roundtrip. Qed.
+Print Assumptions C02_printed_documents_parse_to_their_meaning.
+
+(* a string literal with any mixture of plain bytes and escapes reads back as the string *)
+Theorem C02_string_literals : forall s rest, bytes_ok s -> utf8_valid s = true ->
+  parse_json_string (flat_map escape_byte s ++ 34 :: rest) = Ok (s, rest).
+Proof. exact string_roundtrip. Qed.
+Print Assumptions C02_string_literals.
+
+(* integer tokens: u64 exact, negative i64 exact *)
+Theorem C02_unsigned_integers_exact : forall n rest, n < two64 -> ends_number rest ->
+  parse_json_number (dec_digits n ++ rest) = Ok (VNum (NUInt n), rest).
+Proof. exact parse_uint_token. Qed.
+Theorem C02_negative_integers_exact : forall z rest, (- two63 <= z < 0)%Z -> ends_number rest ->
+  parse_json_number (dec_Z z ++ rest) = Ok (VNum (NInt z), rest).
+Proof. exact parse_negint_token. Qed.
+Print Assumptions C02_negative_integers_exact.
